@@ -18,7 +18,7 @@ type genOpts struct {
 	GenSources bool // generated files used as sources of other targets
 }
 
-var textPool = []string{"", "", "one line\n", "first\nsecond\n", "no newline at end", "a\n\nb\n", "x\ny\nz", "\n", "ünï\ncode ✓\n", "tab\there\n" + strings.Repeat("long line ", 30) + "\n"}
+var textPool = []string{"", "", "one line\n", "first\nsecond\n", "no newline at end", "a\n\nb\n", "x\ny\nz", "\n", "ünï\ncode ✓\n", "tab\there\n" + strings.Repeat("long line ", 30) + "\n", "dos\r\nline\r\n", strings.Repeat("x", 5000) + "\nend"}
 
 func genProject(r *rand.Rand, o genOpts) *projSpec {
 	p := &projSpec{Files: map[string]string{}}
